@@ -12,6 +12,10 @@
 
 namespace hist {
 using rel::numof;
+template <class Q, class = void>
+struct HasMutableValueQ : std::false_type {};
+template <class Q>
+struct HasMutableValueQ<Q, std::void_t<decltype(std::declval<Q&>().MutableValue())>> : std::true_type {};
 static int DEPTH = 4;
 
 template <class Q>
@@ -160,6 +164,74 @@ void add_times_divide(Explorer<Q>& ex, bool times) {
       for (int i = 0; i < n; i++) c[i] = times ? c[i] * x : c[i] / x;
     };
     ex.ops.push_back(op);
+  }
+}
+
+// operands that alias the object itself: q += q, q -= q, and scaling by a reference to the object's own first component
+template <class Q>
+void add_aliasing(Explorer<Q>& ex, bool has_plus, bool has_times) {
+  using T = numof<Q>;
+  if (has_plus) {
+    Op<Q> a;
+    a.name = "+=self";
+    a.compound = [](Q& q) { q += q; };
+    a.pure = [](const Q& q, Q& out) {
+      if constexpr (std::is_same_v<std::decay_t<decltype(q + q)>, Q>) {
+        out = q + q;
+        return true;
+      } else {
+        return false;
+      }
+    };
+    a.model = [](T* c, int n) {
+      for (int i = 0; i < n; i++) c[i] = c[i] + c[i];
+    };
+    ex.ops.push_back(a);
+    Op<Q> b;
+    b.name = "-=self";
+    b.compound = [](Q& q) { q -= q; };
+    b.pure = [](const Q& q, Q& out) {
+      if constexpr (std::is_same_v<std::decay_t<decltype(q - q)>, Q>) {
+        out = q - q;
+        return true;
+      } else {
+        return false;
+      }
+    };
+    b.model = [](T* c, int n) {
+      for (int i = 0; i < n; i++) c[i] = c[i] - c[i];
+    };
+    ex.ops.push_back(b);
+  }
+  if constexpr (rel::IsQuantity<Q>::value) {
+    if (has_times) {
+      for (int which = 0; which < 2; which++) {
+        Op<Q> m;
+        m.name = which ? "/=own-first-component(by reference)" : "*=own-first-component(by reference)";
+        m.compound = [which](Q& q) {
+          // a reference into the object's own storage
+          const T* first;
+          if constexpr (vf::count_of<Q>() == 1) {
+            first = &q.MutableValue();
+          } else if constexpr (vf::count_of<Q>() == 2) {
+            first = &q.MutableValue().Mutable_x_y()[0];
+          } else if constexpr (vf::count_of<Q>() == 3) {
+            first = &q.MutableValue().Mutable_x_y_z()[0];
+          } else if constexpr (vf::count_of<Q>() == 6) {
+            first = &q.MutableValue().Mutable_xx_xy_xz_yy_yz_zz()[0];
+          } else {
+            first = &q.MutableValue().Mutable_xx_xy_xz_yx_yy_yz_zx_zy_zz()[0];
+          }
+          if (which) q /= *first; else q *= *first;
+        };
+        m.pure = [](const Q&, Q&) { return false; };
+        m.model = [which](T* c, int n) {
+          const T k = c[0];
+          for (int i = 0; i < n; i++) c[i] = which ? c[i] / k : c[i] * k;
+        };
+        ex.ops.push_back(m);
+      }
+    }
   }
 }
 
